@@ -49,10 +49,18 @@ def rename_locals(fn):
     return fn
 
 
+def sort_keywords(fn):
+    """keyword arguments of every call in name order (their order has no meaning in Python; `**kw` entries stay last)"""
+    for node in ast.walk(fn):
+        if isinstance(node, ast.Call) and all(k.arg is not None for k in node.keywords):
+            node.keywords = sorted(node.keywords, key=lambda k: k.arg)
+    return fn
+
+
 def norm_text(fn, rename=True):
     fn = strip_doc_ann(fn)
     if rename:
-        fn = rename_locals(fn)
+        fn = sort_keywords(rename_locals(fn))
     return ast.unparse(fn)
 
 
@@ -74,7 +82,7 @@ CANON_PPOLY = (
     "        v1 = scipy.interpolate.CubicHermiteSpline\n"
     "    v2 = v1(numpy.flip(numpy.log(mode_volumes), axis=0), numpy.flip(numpy.log(mode_freqs), axis=0))\n"
     "    v3 = numpy.log(v_array)\n"
-    "    return (numpy.exp(v2(v3, extrapolate=True)), -v2(v3, nu=1, extrapolate=True), -v2(v3, nu=2, extrapolate=True))"
+    "    return (numpy.exp(v2(v3, extrapolate=True)), -v2(v3, extrapolate=True, nu=1), -v2(v3, extrapolate=True, nu=2))"
 )
 
 
